@@ -338,6 +338,8 @@ pub fn run_scenario(sc: &Value, ex: &mut Exec) -> usize {
     let want_pts = sc.get("points").and_then(|v| v.as_bool()).unwrap_or(false);
     hh.record.store(want_pts, Ordering::SeqCst);
     hh.take_points();
+    hh.fx_on.store(sc.get("fxrec").and_then(|v| v.as_bool()).unwrap_or(false), Ordering::SeqCst);
+    hh.take_fx();
     let obs_every = sc.get("obs").and_then(|v| v.as_str()).unwrap_or("every") == "every";
     let raw = sc.get("raw").and_then(|v| v.as_bool()).unwrap_or(false);
     let link: Option<PathBuf> = if cfg.link {
@@ -988,6 +990,10 @@ pub fn run_scenario(sc: &Value, ex: &mut Exec) -> usize {
             .to_string());
         ev["inj"] = json!(hh.injected.swap(0, Ordering::SeqCst));
         ev["injp"] = json!(std::mem::take(&mut *hh.injected_names.lock().unwrap()));
+        // the file-system effects this step performed, in order, with the injected failures (conform mode with faults)
+        let fx = hh.take_fx();
+        ev["fx"] = json!(fx.iter().map(|(n, _)| json!(n)).collect::<Vec<_>>());
+        ev["fxf"] = json!(fx.iter().map(|(_, f)| json!(*f)).collect::<Vec<_>>());
         ev["retk"] = json!(ret.split(':').next().unwrap_or("?"));
         let faultleft: i64 = match hh.fault.lock().unwrap().clone() {
             Some(p) => {
